@@ -223,8 +223,13 @@ Definition all_jobs (s : state) : list job :=
 (* ------------------------------------------------------------------------------------------------------------
    The serial execution queue (lib/Basic/SerialQueue.cpp): ONE worker thread and one FIFO deque of operations;
    addJob ignores the priority; executeProcess refuses to spawn once cancelled; the destructor appends a nil
-   operation (the sentinel) and joins the worker, which leaves its loop when it dequeues the sentinel
-   (SerialQueueImpl::run, "if (!fn) break;").  Whatever is behind the sentinel at that moment is destroyed unrun. *)
+   operation (the shutdown marker) and joins the worker.
+   SerialQueueImpl::run, when it dequeues the marker:
+     repaired = true  (6dc9f85): if nothing is behind the marker the worker leaves; otherwise the marker is pushed back
+                      behind the operations that the still-running operation added, and the loop goes on.  Nobody can
+                      add between the dequeue and the push (only the worker's own running operation could, and none is
+                      running), so the rotation is folded into the next step as [snorm].
+     repaired = false (before): "if (!fn) break;" - whatever is behind the marker is destroyed unrun. *)
 Inductive sop := SJob (j : job) | SNil.
 
 Record sstate := mk_sstate {
@@ -247,7 +252,16 @@ Inductive slabel :=
 
 Definition sinit : sstate := mk_sstate [] None [] [] false false false.
 
-Definition sstep (s : sstate) (a : slabel) : option sstate :=
+(* marker at the front with operations behind it: the worker moves it to the back *)
+Definition snorm (repaired : bool) (ops : list sop) : list sop :=
+  if repaired then
+    match ops with
+    | SNil :: o :: r => (o :: r) ++ [SNil]
+    | _ => ops
+    end
+  else ops.
+
+Definition sstep_gen (repaired : bool) (s : sstate) (a : slabel) : option sstate :=
   match a with
   | SAdd j from_job =>
     if mem_n j (ss_added s) then None
@@ -256,7 +270,7 @@ Definition sstep (s : sstate) (a : slabel) : option sstate :=
                       (ss_cancelled s) (ss_shutdown s) (ss_exited s))
     else None
   | STake j =>
-    match ss_exited s, ss_running s, ss_ops s with
+    match ss_exited s, ss_running s, snorm repaired (ss_ops s) with
     | false, None, SJob k :: r =>
       if N.eqb k j then Some (mk_sstate r (Some j) (ss_finished s) (ss_added s) (ss_cancelled s) (ss_shutdown s) (ss_exited s))
       else None
@@ -279,24 +293,37 @@ Definition sstep (s : sstate) (a : slabel) : option sstate :=
   | SExit =>
     match ss_exited s, ss_running s, ss_ops s with
     | false, None, SNil :: r =>
-      (* the worker breaks out of its loop; r is never looked at again *)
-      Some (mk_sstate r None (ss_finished s) (ss_added s) (ss_cancelled s) (ss_shutdown s) true)
+      if repaired then
+        match r with
+        | [] => Some (mk_sstate [] None (ss_finished s) (ss_added s) (ss_cancelled s) (ss_shutdown s) true)
+        | _ :: _ => None                (* not empty behind the marker: the worker goes on *)
+        end
+      else (* the worker breaks out of its loop; r is never looked at again *)
+        Some (mk_sstate r None (ss_finished s) (ss_added s) (ss_cancelled s) (ss_shutdown s) true)
     | _, _, _ => None
     end
   end.
 
-Fixpoint saccepts (s : sstate) (ls : list slabel) : option sstate :=
+Definition sstep := sstep_gen true.
+Definition sstep_v0 := sstep_gen false.
+
+Fixpoint saccepts_gen (repaired : bool) (s : sstate) (ls : list slabel) : option sstate :=
   match ls with
   | [] => Some s
-  | a :: ls' => match sstep s a with Some s' => saccepts s' ls' | None => None end
+  | a :: ls' => match sstep_gen repaired s a with Some s' => saccepts_gen repaired s' ls' | None => None end
   end.
 
-Fixpoint sfirst_reject (s : sstate) (ls : list slabel) (i : N) : option N :=
+Definition saccepts := saccepts_gen true.
+Definition saccepts_v0 := saccepts_gen false.
+
+Fixpoint sfirst_reject (repaired : bool) (s : sstate) (ls : list slabel) (i : N) : option N :=
   match ls with
   | [] => None
-  | a :: ls' => match sstep s a with Some s' => sfirst_reject s' ls' (i + 1) | None => Some i end
+  | a :: ls' => match sstep_gen repaired s a with Some s' => sfirst_reject repaired s' ls' (i + 1) | None => Some i end
   end.
 
+Definition sjobs (ops : list sop) : list job :=
+  flat_map (fun o => match o with SJob j => [j] | SNil => [] end) ops.
+
 (* jobs that were added and will never run: still queued when the worker has left *)
-Definition slost (s : sstate) : list job :=
-  if ss_exited s then flat_map (fun o => match o with SJob j => [j] | SNil => [] end) (ss_ops s) else [].
+Definition slost (s : sstate) : list job := if ss_exited s then sjobs (ss_ops s) else [].
